@@ -65,7 +65,7 @@ def config_time(quick):
         opt_lists=[[], [opt("UTCMode", 3), opt("TimeFormat", 2)]] + ([] if quick else [[opt("TimeFormat", 1)], [opt("UTCMode", 1)]]),
         setter_args={"UTCMode": [(1, 0), (3, 0)], "TimeFormat": [(1, 0), (2, 0)]}, acts=["Set", "With", "New", "Flags"],
         probe_sevs=[4], max_list=1, flag_sets=[["localTime"]] if quick else [["date"], ["localTime"]],
-        max_saved=0 if quick else 1,
+        max_saved=0,
     )
 
 
